@@ -213,7 +213,7 @@ def build_and_run(sh_id, insts, finsts, flavour, nrandom, exh32, chk, dropped):
     exe = os.path.join(d, f"s{sh_id}.exe")
     insts = list(insts)
     finsts = list(finsts)
-    for attempt in range(3):
+    for attempt in range(12):
         core.write(src, emit_tu(insts, finsts))
         rc, se = core.build(src, exe, flavour)
         if rc == 0:
